@@ -46,6 +46,21 @@ def run(ctx, idx):
     for n in own_nodes(fi.node):
         if isinstance(n, ast.Call) and idx.qualname(fi.module, n.func, fi) == "mpilot.parser.parser.CommandNode":
             ctor = n
+    # the conversion builds new nodes and leaves the parsed ones as they are: a parse tree may be kept and converted again
+    # (a second load of the same text, a caller holding the tree) - arguments removed from the parsed node are gone for good
+    for n in own_nodes(fi.node):
+        mut = None
+        if isinstance(n, ast.Call) and isinstance(n.func, ast.Attribute) and n.func.attr in ("remove", "pop", "clear", "append", "insert", "extend", "sort", "reverse") and K.src(n.func.value).endswith(".arguments"):
+            mut = n
+        if isinstance(n, ast.Delete) and any(isinstance(t_, ast.Subscript) and K.src(t_.value).endswith(".arguments") for t_ in n.targets):
+            mut = n
+        if isinstance(n, (ast.Assign, ast.AugAssign)) and any(isinstance(t_, ast.Subscript) and K.src(t_.value).endswith(".arguments") for t_ in (n.targets if isinstance(n, ast.Assign) else [n.target])):
+            mut = n
+        if mut is not None:
+            ctx.violate("C16.b", "%s::parsed-nodes-left-alone" % fi.key, utils.rel, mut.lineno, "`%s` edits the argument list of the PARSED node in place: a tree that is converted again (the same text loaded twice through a parse cache, a caller that keeps the tree) has already lost its NewFieldName / OutFileName, so the second load names its results differently from the mapped MPilot file - or not at all" % K.src(mut)[:60])
+            break
+    else:
+        ctx.hold("C16.b", "%s::parsed-nodes-left-alone" % fi.key, utils.rel, fi.node.lineno, "the conversion does not edit the parsed nodes' argument lists", nontrivial=False)
     if ctor is None:
         raise AnalysisError("convert_eems2_commands no longer builds CommandNode objects")
     fields = idx.const(idx.module_of("mpilot.parser.parser"), idx.module_of("mpilot.parser.parser").consts["CommandNode"].args[1])
